@@ -81,7 +81,20 @@ pub fn mangle(f: &mut Vec<u8>, cfg: &FaultCfg, rng: &mut Rng, st: &mut FaultStat
     if cfg.ipvary_pm > 0 && rng.below(1000) < cfg.ipvary_pm && f.len() >= 34 {
         // a middlebox / odd sender: header fields that carry no meaning for the responder
         let et = ((f[12] as u16) << 8) | f[13] as u16;
-        if et == ET_IP4 {
+        if rng.chance(1, 8) {
+            // a trunk port: the frame arrives with an 802.1Q / 802.1ad tag (or two) in front of its
+            // EtherType - the frame's EtherType is then not one of the three the responder handles
+            let n = if rng.chance(1, 4) { 2 } else { 1 };
+            for k in 0..n {
+                let tpid = if n == 2 && k == 1 { 0x88a8u16 } else { *rng.pick(&[0x8100u16, 0x8100, 0x8100, 0x88a8, 0x9100]) };
+                let tci = *rng.pick(&[0u16, 1, 100, 0x0fff, 0x2001, 0xe00a]);
+                let tail = f.split_off(12);
+                f.extend_from_slice(&tpid.to_be_bytes());
+                f.extend_from_slice(&tci.to_be_bytes());
+                f.extend_from_slice(&tail);
+            }
+            st.hit("vlan-tag");
+        } else if et == ET_IP4 {
             let ihl = (f[14] & 0x0f) as usize * 4;
             if ihl >= 20 && 14 + ihl <= f.len() {
                 match rng.below(4) {
